@@ -136,7 +136,7 @@ def ref_text(item):
     if k == 'i': return str(v)
     if k == 'c': return chr(v)
     if k == 'b': return 'Y' if v else 'N'
-    if k == 'f': return float_text(v, 2)
+    if k == 'f': return float_text(v, item.get('p', 2))
     if k == 's': return v
     if k == 't':
         dt = EPOCH + datetime.timedelta(milliseconds=v)
@@ -167,7 +167,7 @@ def token_arg(item):
     k, v = item['k'], item['v']
     if k in 'ib': return '%s:%d' % (k, v)
     if k == 'c': return 'c:%d' % v
-    if k == 'f': return 'f:%s:2' % (float(Fraction(v, 100))).hex()
+    if k == 'f': return 'f:%s:%d' % ((float(Fraction(v, 10 ** item.get('p', 2)))).hex(), item.get('p', 2))     # item['p']: precision the field is built with (default 2)
     if k == 's': return 's:' + hexs(v)
     if k in 'tod': return '%s:%d' % (k, expected_ticks(item))
     if k == 'm': return 'm:%s:%d' % (hexs(ref_text(item)), expected_ticks(item))
